@@ -406,40 +406,43 @@ func checkC07(c *Ctx) {
 	if gen != nil {
 		info := gen.TypesInfo
 		heads := 0
+		_ = info
 		for _, f := range gen.Syntax {
-			ast.Inspect(f, func(n ast.Node) bool {
-				x, ok := n.(*ast.CallExpr)
-				if !ok {
-					return true
-				}
-				if x, ok = normSprintf(info, x); !ok || len(x.Args) < 2 {
-					return true
-				}
-				format, ok := constString(info, x.Args[0])
-				if !ok {
-					return true
-				}
-				isHead := (strings.HasPrefix(format, "%s[") && strings.HasSuffix(strings.TrimSpace(format), "{")) || strings.HasPrefix(format, "%s = [") || strings.HasPrefix(format, "%s = {")
-				if !isHead || strings.HasPrefix(format, "%s = { ") && strings.Contains(format, "|") && strings.HasSuffix(strings.TrimSpace(format), "}") {
-					return true
+			for _, d := range f.Decls {
+				fd, ok := d.(*ast.FuncDecl)
+				if !ok || fd.Body == nil {
+					continue
 				}
 				// rule heads are only emitted by functions that assemble whole rules (their result is not a body line list)
-				fname := enclosingFuncName(gen, x.Pos())
+				fname := fd.Name.Name
 				if !strings.HasPrefix(fname, "aggregate") && !strings.HasPrefix(fname, "wrapTopLevel") {
-					return true
+					continue
 				}
-				heads++
-				arg := ast.Unparen(x.Args[1])
-				okh := false
-				if id, isID := arg.(*ast.Ident); isID && fromFreshName(gen, id) {
-					okh = true
+				seenHead := map[string]bool{}
+				proto := &symWalker{Inline: func(*types.Func) bool { return false }}
+				proto.OnText = func(w *symWalker, at ast.Expr, text *Sym) {
+					if w.depth != 0 || text == nil || text.K != symConcat || len(text.Parts) < 2 {
+						return
+					}
+					if _, isConst := text.Parts[0].ConstString(); isConst {
+						return
+					}
+					format := holeText.ReplaceAllString(text.Template(), "%s")
+					isHead := (strings.HasPrefix(format, "%s[") && strings.HasSuffix(strings.TrimSpace(format), "{")) || strings.HasPrefix(format, "%s = [") || strings.HasPrefix(format, "%s = {")
+					if !isHead || strings.HasPrefix(format, "%s = { ") && strings.Contains(format, "|") && strings.HasSuffix(strings.TrimSpace(format), "}") {
+						return
+					}
+					if seenHead[format] {
+						return
+					}
+					seenHead[format] = true
+					heads++
+					name := text.Parts[0]
+					okh := name.K == symCall && (strings.Contains(name.Fn, "/internal/parser/profile.") || name.Fn == "strings.ToLower")
+					r.Check(okh, "C07.H2", relOf(gen)+"."+fname+"#head:"+shortFormat(format), p.Pos(at.Pos()), "the rule is named by the fresh-name generator or by the level", "a module-scope rule is named by "+shortFormat(name.String())+", which is neither a fresh name nor a level: two validations can define conflicting rules")
 				}
-				if call, isCall := arg.(*ast.CallExpr); isCall && funcFullName(calleeOf(info, call)) == "strings.ToLower" {
-					okh = true
-				}
-				r.Check(okh, "C07.H2", relOf(gen)+"."+fname+"#head:"+shortFormat(format), p.Pos(x.Pos()), "the rule is named by the fresh-name generator or by the level", "a module-scope rule is named by "+types.ExprString(arg)+", which is neither a fresh name nor a level: two validations can define conflicting rules")
-				return true
-			})
+				p.SymWalk(gen, fd, proto, nil)
+			}
 		}
 		if heads == 0 {
 			r.Unknown("C07.H2", "heads", "", "no rule-head templates recognised")
